@@ -146,6 +146,7 @@ func c05Templates() []*c05Query {
 		{tag: "list-alias", aliases: []c05Alias{{"l", "split(value, ',')", L}, {"h", "{l}[0]", S}}, lead: []string{"key"}, extra: []string{"len({l})"}, where: "'a' in {l} | {h} = 'b'", kind: "plain"},
 		{tag: "in-list-item", lead: []string{"key"}, aliases: []c05Alias{{"n", "int(value)", I}, {"m", "strlen(value)", I}}, extra: []string{"ilist({n}, {m})[1]"}, where: "{n} in (7, {m}, 12) | {n} between {m} and 3", kind: "plain"},
 		{tag: "not", lead: []string{"key"}, aliases: []c05Alias{{"n", "int(value)", I}}, where: "!({n} > 2) | {n} = 7", kind: "plain"},
+		{tag: "prefix-names", lead: []string{"key"}, aliases: []c05Alias{{"v", "int(value)", I}, {"v2", "int(value) * 100", I}}, where: "{v} < 5 & {v2} > 150", kind: "plain"},
 		{tag: "same-name-twice", aliases: []c05Alias{{"a", "upper(value)", S}, {"a", "int(value)", I}}, lead: []string{"key"}, where: "{a} != 'A'", kind: "plain"},
 		{tag: "unused-alias", lead: []string{"key"}, aliases: []c05Alias{{"n", "int(value)", I}, {"m", "{n} * {n}", I}}, where: "value != '5'", kind: "plain"},
 		{tag: "order-by", lead: []string{"key"}, aliases: []c05Alias{{"n", "int(value)", I}}, where: "{n} > 2", suffix: " order by {n} desc, key", kind: "order"},
@@ -1102,6 +1103,14 @@ func runC05(c *runCtx) error {
 			if rf == nil {
 				e.count("template_rejected:" + qy.tag)
 				continue
+			}
+			if qy.tag == "prefix-names" && round == 0 {
+				// alias names in a prefix relation over keys chosen so that name ++ key of
+				// two different (alias, chunk) pairs is the same text: v ++ 2b = v2 ++ b
+				st := [][2]string{{"2b", "1"}, {"2c", "5"}, {"b", "3"}, {"c", "4"}}
+				for _, B := range Bs {
+					cr.combo(qy, st, "full", B, 0, true)
+				}
 			}
 			for _, B := range Bs {
 				for _, k := range ks(B) {
